@@ -21,12 +21,10 @@ static void ghost_init (void)
   __CPROVER_assume (ALLOC_MAX <= CFG_ALLOC_MAX_BOUND && ALLOC_MAX <= SIZE_T_MAX_CFG);
   __CPROVER_assume (!exc && exc_kind == EXC_NONE);
   /* watchers denoting the same cell carry the same state */
-#define COINC(i, j) __CPROVER_assume (!(WP[i] == WP[j]) || (WL[i] == WL[j] && WMF[i] == WMF[j] && WV[i] == WV[j]));
-  COINC (0, 1) COINC (0, 2) COINC (1, 2) COINC (0, 3) COINC (1, 3) COINC (2, 3)
-#define BOOLS(i) __CPROVER_assume ((WL[i] == 0 || WL[i] == 1) && (WMF[i] == 0 || WMF[i] == 1)); WTOUCH[i] = 0;
-  BOOLS (0) BOOLS (1) BOOLS (2) BOOLS (3)
+  __CPROVER_assume (!(WP[0] == WP[1]) || WS[0] == WS[1]);
   __CPROVER_assume (WBL == 0 || WBL == 1);
-  __CPROVER_assume (WP[WT] == 0 && WL[WT] == 0);   /* no temporary is tracked on entry */
+  __CPROVER_assume (WP[WT] == 0 && WS[WT] == S_RAW);   /* no temporary is tracked on entry */
+  __CPROVER_assume (alloc_calls == 0 && dealloc_calls == 0 && gen_calls == 0 && used_kinds == 0);
 }
 
 /* a container object with inline capacity n (symbolic), on the heap so that its size can be symbolic */
